@@ -8,7 +8,19 @@ Reading (where the property text leaves a choice, the one under which the minima
 * "never empty": a time point without objects may exist only if its time was the argument of
   `get_or_add_point` since the point was created (the API creates such points on request);
 * "in time order": the order among objects of ONE time point is not part of the property (the oracle checks
-  one segment per time point, set equality inside a segment; the correspondence compares the exact sequence);
+  one segment per time point, set equality inside a segment; the correspondence compares the exact sequence and
+  Props/C01Order proves it: class-walk order, then insertion order);
+* "integer" means exact: quarter durations / times that differ by 1 are different at EVERY magnitude (1e5, 2^24,
+  2^31, 2^53 - 12, as Python or numpy integers); the code's own binary64 limit (interp1d) is 2^53, the generator
+  stays below it;
+* outside the property's quantifier but covered (round 5, Model/TimelineX.lean): TimePoint.add_*_object /
+  remove_*_object called directly on a point of the part, the Slur.start_note / end_note setters, `which` / `mode`
+  given as arbitrary strings or omitted, iter_all bounds given as int / numpy int / float / TimePoint.
+  remove_*_object never cleans up: the point it empties is from then on an ALLOWED empty point (like a requested
+  one) in the oracle's and the model's bookkeeping; when the point is NOT the one the object refers to, the oracle
+  accepts either fate of the reference; an unknown `which` string is not a valid argument: the oracle only demands
+  that a rejection is atomic and otherwise follows the part (the model pins today's behaviour: nothing happens);
+  an unknown `mode` string means "starting" (the code says so in its warning);
 * "the next later change" of `set_quarter_duration(t, q)`: the next entry of `quarter_durations()` (as it was
   before the call) with a time > t;
 * double registration (`add(o, start=5)` then `add(o, start=7)`) is OUTSIDE the property's quantifier, but the
@@ -37,7 +49,8 @@ from core import Eval
 PROPERTY = "C01"
 DRIVER = "drv_c01"
 PROPS = ["PartituraModel.Props.C01", "PartituraModel.Props.C01Any", "PartituraModel.Props.C01Np",
-         "PartituraModel.Props.C01Classes"]
+         "PartituraModel.Props.C01Classes", "PartituraModel.Props.C01X", "PartituraModel.Props.C01Order",
+         "PartituraModel.Props.C01Buckets"]
 TRUSTED = [
     "numpy runs the textbook algorithms: np.searchsorted(side=left) = the binary search `bsearch`, np.insert/np.delete "
     "for one index = slice copies `npInsert/npDelete` (compared on sorted and unsorted TimePoint object arrays); that the "
@@ -45,12 +58,21 @@ TRUSTED = [
     "(bsearch_eq_searchsorted, timeline_np); ComparableMixin comparison = comparison of t",
     "scipy interp1d(kind=previous, fill_value=(y0, y-1)) = value of the last table entry <= x (modelled by qdAtQ/qdAt, "
     "specified by quarterMap_correct; compared at every table/point time after every operation and at random rational "
-    "times as scalar/list/array, fresh and cached map)",
+    "times as scalar/list/array, fresh map and memo); interp1d works in binary64: times and quarter durations are exact "
+    "below 2^53 only (the generator draws magnitudes up to 2^53 - 12 + small offsets; above 2^53 a new point's quarter "
+    "is the rounded value - see PARTIAL)",
+    "numpy integer scalars (int8 ... uint32, int64, intp) given as times / quarter durations compare and search like "
+    "Python ints (compared: ~25% of the histories hand over numpy scalars of assorted widths)",
     "identity of TimePoint objects abstracted to their time (sound under the invariant: times are unique); the oracle "
     "checks prev/next/start/end by object identity on the real part",
-    "class-keyed defaultdict(_OrderedSet) registries modelled as one insertion-ordered list per side, per-class view by "
-    "filtering; dict key order (not observable through the API) is not compared",
-    "harness/translate_classes.py: the class DAG, __subclasses__() order and iter_subclasses sequences are the live ones",
+    "class-keyed defaultdict(_OrderedSet) registries: the timeline model keeps one insertion-ordered list per side and "
+    "filters per class; that this is a sound abstraction of the dictionary (keys created by reading included) is PROVED "
+    "(registry_refinement, cleanup_test_sound, reading_is_harmless over Model/TimelineBuckets.lean, itself compared with "
+    "a real TimePoint registry operation by operation); trusted: dict / defaultdict semantics (insertion-ordered keys, "
+    "a missing key read appears empty); dict key order and empty buckets are not observable through the API and not compared",
+    "harness/translate_classes.py: the class DAG, __subclasses__() order and iter_subclasses sequences are the live ones; "
+    "harness/translate_c01sig.py: default argument values (inspect.signature), the initial quarter table and the accepted "
+    "`which` / `mode` strings (behaviour of every string constant of the function on a two-object part) are the live ones",
 ]
 PARTIAL = [
     "histories with double registration of one side (outside Valid, ~15% of the generated ones): proved are WInv (all "
@@ -58,35 +80,51 @@ PARTIAL = [
     "(add_any_effect, add_twice_effect, remove_any_effect, remove_unregistered_effect) and the query results per "
     "listing; that such a part is no longer 'exactly the collection of the registered objects' is what the code does "
     "(add_twice_effect proves the negation of Inv there) - the property excludes the call",
-    "order among the objects of ONE time point is compared exactly with the model; the theorems state duplicate-freeness, "
-    "exact membership and time order",
     "cls=None is modelled as `object` restricted to timed classes; objects of classes defined outside partitura.* are "
     "not generated (ClsOk: class ids of added objects are rows of the generated table)",
-    "set_quarter_duration with a negative time is not rejected by the code; it is outside Valid/QDNonneg and not generated",
-    "TimePoint.remove_starting_object/remove_ending_object (called by the Slur/Tuplet note setters, bypassing "
-    "_cleanup_point) are not operations of the property's histories and are not modelled",
+    "set_quarter_duration with a negative time is not rejected by the code; it is outside Valid/QDNonneg and not generated "
+    "(the memo theorem cache_fresh_reachable needs no such hypothesis)",
+    "TimePoint.add_*_object / remove_*_object called directly and the Slur.start_note / end_note setters ARE operations of "
+    "the extended machine (tpAdd_effect, tpRemove_effect, slurStart_effect, slurEnd_effect, winvX_reachable); "
+    "remove_*_object never cleans up, so the point may stay EMPTY: the model records it in the ghost field `requested` "
+    "(= points allowed to be empty) - 'never empty' holds only in that weakened form after such a call (example in "
+    "Props/C01X); the Tuplet setters (they need the per-object `_start_note` state) and Note.tie_next/tie_prev (no "
+    "timeline effect) are not separate operations - the Tuplet setters' timeline effect is one tpRemove",
     "non-termination of iter_prev/iter_next on cyclic links is modelled as an error value (never reached under WInv: "
     "iterPrev_any_history/iterNext_any_history show the walk succeeds in every reachable state)",
-    "the cache Part._quarter_map is not a separate model component (it is compared with the fresh map after every operation)",
+    "times and quarter durations above 2^53: get_or_add_point reads the quarter through the binary64 interp1d memo, so "
+    "Part(quarter_duration=2^53) ; set_quarter_duration(2^53, 2^53+1) ; add(o, 2^53+1) gives the point quarter 2^53; "
+    "not generated (proposed as an open finding in the round-5 report, no patch: it would retire the memo)",
 ]
 RULE = ("random edit histories of 1-60 operations (add by start/end/both, remove start/end/both, set_quarter_duration, "
         "get_or_add_point, iter_all, iter_prev/next, first/last/get_point, quarter_durations with both bounds, "
         "quarter_duration_map on rational times as scalar/list/array, numpy searchsorted/insert/delete on TimePoint arrays) "
         "over 2-12 objects of 3-8 classes drawn from the whole TimedObject DAG (biased to GraceNote<Note<GenericNote and the "
         "multiply-inheriting direction classes), times from a pool of 2-6 small values (coincidences, first/last point, "
-        "equal start/end), occasionally huge or negative; ~15% of the histories register a side twice and remove "
-        "unregistered objects; a sweep over every class x include_subclasses x mode closes each history; "
+        "equal start/end), occasionally huge or negative; MAGNITUDES: 14% of the histories take their times and 20% their "
+        "quarter durations from base + {-3..4} with base in 1e5 ... 2^24, 2^31, 2^32, 2^40, 2^53-12 (values differing by 1 "
+        "at that scale), 25% hand over numpy integer scalars of assorted widths; ~15% of the histories register a side "
+        "twice and remove unregistered objects; 45% are EXTENDED: TimePoint.add_*_object / remove_*_object on the part's "
+        "points, Slur.start_note / end_note setters, remove with `which` omitted / 'start' / 'end' / 'both' / unknown "
+        "strings, add with omitted times, iter_all with omitted arguments, unknown mode strings and bounds given as int / "
+        "numpy int / float / own TimePoint / foreign TimePoint, Part(id) with the default quarter duration; a sweep over "
+        "every class x include_subclasses x mode closes each history; "
         "distinct = distinct (classes, operation list); non-trivial = at least one removal or quarter change succeeded "
         "on a non-empty timeline")
 LEVEL_TEXT = ("Machine-checked proof (Lean 4) that the modelled timeline state machine keeps the full invariant along every "
               "valid history and the weak invariant (everything but 'only the referenced point lists the object') along "
-              "EVERY history, rejects negative times without effect, obeys the set_quarter_duration law, evaluates "
-              "quarter_duration_map as the step function of the table at arbitrary times, and answers queries with exactly "
-              "the registered matching objects in time order for arbitrary query classes (the MRO table is proved to be the "
-              "reflexive-transitive closure of the __subclasses__() table); numpy's searchsorted/insert/delete are replaced "
-              "by proved algorithm models; the model is tied to the code by a lock-step differential comparison of the "
-              "complete observable state after every operation of random histories, and the class DAG is regenerated from "
-              "the live classes and re-checked by kernel evaluation.")
+              "EVERY history - also of the extended machine with direct TimePoint.add/remove_*_object calls and the Slur "
+              "setters -, rejects negative times without effect, obeys the set_quarter_duration law, keeps the memoised "
+              "quarter map equal to the map of the current table in every reachable state (the machine that reads the "
+              "memo is proved equal to the memo-free one), evaluates quarter_duration_map as the step function of the "
+              "table at arbitrary times, and answers queries with exactly the registered matching objects in time order "
+              "- inside a point in class-walk order then insertion order, the registries being followed as lists through "
+              "every operation - for arbitrary query classes (the MRO table is proved to be the reflexive-transitive "
+              "closure of the __subclasses__() table) and bounds given in any accepted form; numpy's "
+              "searchsorted/insert/delete are replaced by proved algorithm models; the model is tied to the code by a "
+              "lock-step differential comparison of the complete observable state after every operation of random "
+              "histories, and the class DAG, the default argument values and the accepted `which`/`mode` strings are "
+              "regenerated from the live source and re-checked by kernel evaluation.")
 SEARCH_LIMIT = 6000
 
 _CT = None
@@ -114,6 +152,23 @@ DIRS = ["Direction", "LoudnessDirection", "ConstantLoudnessDirection", "DynamicL
 OTHERS = ["TimedObject", "Measure", "Slur", "TimeSignature", "Harmony", "RomanNumeral", "Segment", "Clef"]
 
 
+# magnitudes the small pools never reach: around 1e5 .. 1e9, float32 (2^24), int32 (2^31) and binary64 (2^53) limits
+BIG = [10 ** 5, 3 * 10 ** 5, 10 ** 6, 2 ** 24 - 2, 2 ** 24, 10 ** 8, 2 ** 31 - 3, 2 ** 31, 10 ** 9, 2 ** 32, 2 ** 40,
+       2 ** 53 - 12]
+NPKINDS = [("int8", -2 ** 7, 2 ** 7 - 1), ("int16", -2 ** 15, 2 ** 15 - 1), ("int32", -2 ** 31, 2 ** 31 - 1),
+           ("int64", -2 ** 63, 2 ** 63 - 1), ("uint8", 0, 2 ** 8 - 1), ("uint16", 0, 2 ** 16 - 1),
+           ("uint32", 0, 2 ** 32 - 1), ("intp", -2 ** 63, 2 ** 63 - 1)]
+
+
+def _np(v, op, j):
+    """the argument v of operation op, as the numpy integer kind recorded at op[j] (if any)"""
+    if v is None or len(op) <= j or op[j] is None:
+        return v
+    import numpy as np
+
+    return getattr(np, op[j])(v)
+
+
 def gen_history(rng, tier):
     t, _ = _tables()
     names = t["names"]
@@ -137,6 +192,26 @@ def gen_history(rng, tier):
     tpool = sorted(rng.sample(range(0, 12), k))
     if rng.random() < 0.15:
         tpool.append(rng.choice([10 ** 6, 2 ** 40, 255, 65536]))
+    # MAGNITUDES: times and quarter durations that are large and differ by 1 at that scale (exact integers are
+    # demanded: a tolerance-based or float32 comparison shows only there); all values stay <= 2^53 (binary64
+    # exactness of scipy's interp1d is TRUSTED, see module TRUSTED)
+    qpool = [1, 1, 2, 3, 4, 12, 480]
+    q0 = rng.choice([1, 1, 4, 480])
+    if rng.random() < 0.14:
+        base = rng.choice(BIG)
+        tpool = sorted(set(rng.sample(range(0, 4), 2) + [base + d for d in rng.sample(range(-3, 5), k)]))
+    if rng.random() < 0.2:
+        qb = rng.choice(BIG)
+        qpool = [qb + d for d in (-2, -1, 0, 0, 1, 1, 2, 3)] + [1, qb + qb // 10 ** 6]
+        q0 = rng.choice(qpool)
+    npish = rng.random() < 0.25   # arguments handed over as numpy integers of assorted widths
+
+    def nk(v):
+        """numpy integer kind for the argument v (None = plain int)"""
+        if not npish or v is None or rng.random() < 0.5:
+            return None
+        fit = [n for n, lo, hi in NPKINDS if lo <= v <= hi]
+        return rng.choice(fit) if fit else None
 
     def time_(neg_ok=True):
         x = rng.random()
@@ -166,8 +241,100 @@ def gen_history(rng, tier):
     lenient = rng.random() < 0.15  # histories with double registration (outside Valid; WInv + listings oracle)
     reg = [[None, None] for _ in range(nobj)]
     ops = []
+    # round 5: TimePoint methods called directly, the Slur setters, string / omitted arguments, bound forms
+    extended = rng.random() < 0.45
+    slurs = []
+    if extended and "Slur" in idx and rng.random() < 0.6:
+        for _ in range(rng.randint(1, 2)):
+            cls[rng.randrange(nobj)] = idx["Slur"]
+        slurs = [i for i in range(nobj) if cls[i] == idx["Slur"]]
+
+    def bform(allow_none=True):
+        """a bound of iter_all in one of the accepted forms: [form, numerator, denominator]"""
+        y = rng.random()
+        if allow_none and y < 0.25:
+            return ["-", 0, 1]
+        t_ = time_()
+        y = rng.random()
+        if y < 0.25:
+            return ["int", t_, 1]
+        if y < 0.45:
+            return ["np", t_, 1, nk2(t_)]
+        if y < 0.65:
+            h = 2 * t_ + rng.choice([-1, 1, 1])
+            if abs(h) < 2 ** 53:
+                return [rng.choice(["float", "tpf"]), h, 2]
+            return ["float", t_, 1]
+        if y < 0.85:
+            return ["tp", t_, 1]      # the part's own TimePoint at t_ when there is one, else a foreign TimePoint(t_)
+        return ["tpf", t_, 1]         # a TimePoint that is not on the timeline
+
+    def nk2(v):
+        fit = [n for n, lo, hi in NPKINDS if lo <= v <= hi]
+        return rng.choice(fit) if fit else None
+
     for _ in range(nops):
         x = rng.random()
+        if extended and rng.random() < 0.3:
+            y = rng.random()
+            if y < 0.2:
+                # tp.add_*_object: inside Valid only on a free side
+                sd = rng.randrange(2)
+                cand = [i for i in range(nobj) if reg[i][sd] is None]
+                if lenient or not cand:
+                    cand = list(range(nobj))
+                o = rng.choice(cand)
+                used = sorted(set(v for r in reg for v in r if v is not None))
+                t_ = rng.choice(used) if used and rng.random() < 0.85 else time_()
+                if t_ >= 0:
+                    reg[o][sd] = t_
+                ops.append(["tpadd", sd, t_, o])
+            elif y < 0.4:
+                # tp.remove_*_object: mostly on the point the object refers to (what the Slur/Tuplet setters do)
+                sd = rng.randrange(2)
+                cand = [i for i in range(nobj) if reg[i][sd] is not None]
+                if cand and not (lenient and rng.random() < 0.4):
+                    o = rng.choice(cand)
+                    t_ = reg[o][sd]
+                else:
+                    o = rng.randrange(nobj)
+                    t_ = time_()
+                reg[o][sd] = None
+                ops.append(["tprm", sd, t_, o])
+            elif y < 0.55 and slurs:
+                sl = rng.choice(slurs)
+                nt = rng.randrange(nobj)
+                if rng.random() < 0.4:
+                    reg[sl][0] = None
+                    ops.append(["slurS", sl, nt])
+                else:
+                    reg[sl][1] = reg[nt][1]
+                    ops.append(["slurE", sl, nt])
+            elif y < 0.7:
+                cand = [i for i in range(nobj) if reg[i][0] is not None or reg[i][1] is not None] or list(range(nobj))
+                o = rng.choice(cand)
+                w = rng.choice([None, None, "start", "end", "both", "Both", "starting", "", "s", "all"])
+                if w in (None, "both", "start"):
+                    reg[o][0] = None
+                if w in (None, "both", "end"):
+                    reg[o][1] = None
+                ops.append(["rmx", o, w])
+            elif y < 0.82:
+                cand = [i for i in range(nobj) if reg[i][0] is None and reg[i][1] is None] or list(range(nobj))
+                o = rng.choice(cand)
+                st = rng.choice(["_", "_", None, time_(), time_()])
+                en = rng.choice(["_", "_", None, time_(), time_()])
+                if all(v in ("_", None) or v >= 0 for v in (st, en)):
+                    if st not in ("_", None):
+                        reg[o][0] = st
+                    if en not in ("_", None):
+                        reg[o][1] = en
+                ops.append(["addd", o, st, en])
+            else:
+                c = qcls()
+                ops.append(["allx", c, bform(), bform(), rng.choice(["_", "_", True, False]),
+                            rng.choice(["_", "_", "starting", "ending", "ending", "Ending", "end", ""])])
+            continue
         if x < 0.28:
             # add: prefer an object with a free side
             cand = [i for i in range(nobj) if reg[i][0] is None or reg[i][1] is None]
@@ -199,7 +366,7 @@ def gen_history(rng, tier):
                     reg[o][0] = s
                 if e is not None:
                     reg[o][1] = e
-            ops.append(["add", o, s, e])
+            ops.append(["add", o, s, e] + ([nk(s), nk(e)] if npish else []))
         elif x < 0.49:
             cand = [i for i in range(nobj) if reg[i][0] is not None or reg[i][1] is not None]
             if not cand or rng.random() < (0.25 if lenient else 0.08):
@@ -212,9 +379,11 @@ def gen_history(rng, tier):
                 reg[o][1] = None
             ops.append(["rm", o, w])
         elif x < 0.59:
-            ops.append(["qd", time_(neg_ok=False), rng.choice([1, 1, 2, 3, 4, 12, 480])])
+            t_, q_ = time_(neg_ok=False), rng.choice(qpool)
+            ops.append(["qd", t_, q_] + ([nk(t_), nk(q_)] if npish else []))
         elif x < 0.64:
-            ops.append(["goa", time_()])
+            t_ = time_()
+            ops.append(["goa", t_] + ([nk(t_)] if npish else []))
         elif x < 0.77:
             c = qcls()
             if c is None and rng.random() < 0.6:
@@ -229,7 +398,8 @@ def gen_history(rng, tier):
         elif x < 0.88:
             ops.append([rng.choice(["first", "last"])])
         elif x < 0.91:
-            ops.append(["gp", time_()])
+            t_ = time_()
+            ops.append(["gp", t_] + ([nk(t_)] if npish else []))
         elif x < 0.945:
             a = bound()
             b = bound()
@@ -244,7 +414,8 @@ def gen_history(rng, tier):
                 if y < 0.35:
                     xs.append([time_(neg_ok=False), 1])
                 elif y < 0.65:
-                    xs.append([2 * time_(neg_ok=False) + rng.choice([-1, 1]), 2])
+                    h = 2 * time_(neg_ok=False) + rng.choice([-1, 1])
+                    xs.append([h, 2] if abs(h) < 2 ** 53 else [h // 2, 1])   # must be exact in binary64
                 elif y < 0.85:
                     xs.append([rng.randrange(0, 100), 8])
                 elif y < 0.93:
@@ -271,13 +442,46 @@ def gen_history(rng, tier):
                 ops.append(["np_del", arr, rng.randint(0, len(arr) + 1)])
     ops.append(["sweep", bound() if rng.random() < 0.5 else None, bound() if rng.random() < 0.5 else None,
                 rng.random() < 0.12])
-    return {"q0": rng.choice([1, 1, 4, 480]), "cls": cls, "ops": ops}
+    if extended and rng.random() < 0.3:
+        q0 = None      # Part(id): the default quarter duration
+    return {"q0": q0, "cls": cls, "ops": ops}
+
+
+def gen_buckets(rng):
+    """operations on ONE registry (the starting objects of one time point kept alive by a sentinel): the
+    class-keyed defaultdict of ordered sets against Model/TimelineBuckets.lean"""
+    t, _ = _tables()
+    names = t["names"]
+    idx = {n: i for i, n in enumerate(names)}
+    pool = [idx[n] for n in rng.sample(NOTEISH, 3) + rng.sample(DIRS, 2) + ["TimedObject"] if n in idx]
+    nobj = rng.randint(1, 8)
+    cls = [rng.choice(pool) for _ in range(nobj)]
+    anc = sorted(set(a for c in pool for a in t["mro"][c]))
+    ops = []
+    for _ in range(rng.randint(1, 40)):
+        x = rng.random()
+        if x < 0.35:
+            ops.append(["badd", rng.randrange(nobj)])
+        elif x < 0.5:
+            ops.append(["brmt", rng.randrange(nobj)])
+        elif x < 0.65:
+            ops.append(["brmk", rng.randrange(nobj)])
+        elif x < 0.9:
+            y = rng.random()
+            c = rng.choice(pool) if y < 0.4 else (rng.choice(anc) if y < 0.8 else (None if y < 0.9 else rng.randrange(len(names))))
+            ops.append(["biter", c, True if c is None else rng.random() < 0.6])
+        else:
+            ops.append(["btotal"])
+    return {"kind": "buckets", "cls": cls, "ops": ops}
 
 
 def cases(rng, tier):
     n = {"quick": 300, "thorough": 20000, "search": 6000}.get(tier, 300)
     for _ in range(n):
-        yield gen_history(rng, tier)
+        if rng.random() < 0.07:
+            yield gen_buckets(rng)
+        else:
+            yield gen_history(rng, tier)
 
 
 # ------------------------------------------------------------------ running the real code
@@ -309,8 +513,12 @@ class Ctx:
         self.t = t
         self.classes = classes
         self.cid = {c: i for i, c in enumerate(classes)}
-        self.part = S.Part("P", quarter_duration=desc["q0"])
+        self.part = S.Part("P") if desc["q0"] is None else S.Part("P", quarter_duration=desc["q0"])
         self.objs = [_mk(classes[c]) for c in desc["cls"]]
+        for o in self.objs:
+            # what the Slur setters touch on the note handed to them (GenericNote.__init__ creates them)
+            o.slur_starts = []
+            o.slur_stops = []
         self.oid = {id(o): i for i, o in enumerate(self.objs)}
 
     # ---- canonical dump of the real part (the same text Driver/C01.lean prints)
@@ -337,7 +545,10 @@ class Ctx:
         except Exception as e:
             qd = ["err:" + type(e).__name__]
         qt, qv = list(p._quarter_times), list(p._quarter_durations)
-        probes = qt + [tp.t for tp in p._points] + [(qt[-1] + 1) if qt else 0, -1]
+        try:
+            probes = [int(x) for x in qt] + [int(tp.t) for tp in p._points] + [(int(qt[-1]) + 1) if qt else 0, -1]
+        except Exception:
+            probes = []
         m = []
         for x in probes:
             try:
@@ -392,6 +603,21 @@ def request_of(op):
         return "np del %s %d" % (W.lst(W.i, op[1]), op[2])
     if k == "npstate":
         return "npstate %d" % op[1]
+    if k in ("tpadd", "tprm"):
+        return "%s %s %d %d" % (k, "se"[op[1]], op[2], op[3])
+    if k in ("slurS", "slurE"):
+        return "%s %d %d" % (k, op[1], op[2])
+    if k == "rmx":
+        return "rmx %d %s" % (op[1], "-" if op[2] is None else W.s(op[2]))
+    if k == "addd":
+        return "addd %d %s %s" % (op[1], "_" if op[2] == "_" else _o(op[2]), "_" if op[3] == "_" else _o(op[3]))
+    if k == "allx":
+        def bd(b):
+            if b[0] == "-":
+                return "-"
+            return ("p " if b[0] in ("tp", "tpf") else "n ") + W.q(Fraction(b[1], b[2]))
+        return "allx %s %s %s %s %s" % (_o(op[1]), bd(op[2]), bd(op[3]), "_" if op[4] == "_" else W.b(op[4]),
+                                        "_" if op[5] == "_" else W.s(op[5]))
     raise ValueError(k)
 
 
@@ -402,18 +628,19 @@ def _ilist(xs):
 def perform(cx, op):
     """run one operation on the real part; returns (result text, raw result for the oracle)"""
     p, k = cx.part, op[0]
+    S = cx.S
     WHICH = {"s": "start", "e": "end", "b": "both"}
     if k == "add":
-        p.add(cx.objs[op[1]], op[2], op[3])
+        p.add(cx.objs[op[1]], _np(op[2], op, 4), _np(op[3], op, 5))
         return "ok", None
     if k == "rm":
         p.remove(cx.objs[op[1]], WHICH[op[2]])
         return "ok", None
     if k == "qd":
-        p.set_quarter_duration(op[1], op[2])
+        p.set_quarter_duration(_np(op[1], op, 3), _np(op[2], op, 4))
         return "ok", None
     if k == "goa":
-        tp = p.get_or_add_point(op[1])
+        tp = p.get_or_add_point(_np(op[1], op, 2))
         return "pt:" + _num(tp.t), tp
     if k == "all":
         kw = {}
@@ -440,7 +667,7 @@ def perform(cx, op):
         tp = p.last_point
         return "pt:" + ("-" if tp is None else _num(tp.t)), tp
     if k == "gp":
-        tp = p.get_point(op[1])
+        tp = p.get_point(_np(op[1], op, 2))
         return "pt:" + ("-" if tp is None else _num(tp.t)), tp
     if k == "qds":
         res = p.quarter_durations(op[1], op[2]).tolist()
@@ -481,8 +708,69 @@ def perform(cx, op):
             shape_ok = fresh.shape == (() if op[2] == "scalar" else (len(fr),))
         fv = [float(v) for v in fresh.reshape(-1)]
         cv = [float(v) for v in cached.reshape(-1)]
-        txt = "qmap:[" + ",".join(("%d" % int(v)) if v == int(v) else "?%r" % v for v in fv) + "]"
-        return txt, {"x": fr, "fresh": fv, "cached": cv, "shape_ok": shape_ok}
+        def tx(vs):
+            return "qmap:[" + ",".join(("%d" % int(v)) if v == int(v) else "?%r" % v for v in vs) + "]"
+
+        return tx(fv) + "/" + tx(cv), {"x": fr, "fresh": fv, "cached": cv, "shape_ok": shape_ok}
+    if k in ("tpadd", "tprm"):
+        tp = p.get_point(op[2])
+        if tp is None:
+            return "nopoint", None
+        o = cx.objs[op[3]]
+        if k == "tpadd":
+            (tp.add_starting_object if op[1] == 0 else tp.add_ending_object)(o)
+        else:
+            (tp.remove_starting_object if op[1] == 0 else tp.remove_ending_object)(o)
+        return "ok", tp
+    if k == "slurS":
+        S.Slur.start_note.__set__(cx.objs[op[1]], cx.objs[op[2]])
+        return "ok", None
+    if k == "slurE":
+        S.Slur.end_note.__set__(cx.objs[op[1]], cx.objs[op[2]])
+        return "ok", None
+    if k == "rmx":
+        if op[2] is None:
+            p.remove(cx.objs[op[1]])
+        else:
+            p.remove(cx.objs[op[1]], op[2])
+        return "ok", None
+    if k == "addd":
+        kw = {}
+        if op[2] != "_":
+            kw["start"] = op[2]
+        if op[3] != "_":
+            kw["end"] = op[3]
+        p.add(cx.objs[op[1]], **kw)
+        return "ok", None
+    if k == "allx":
+        import numpy as np
+
+        def arg(b):
+            x = Fraction(b[1], b[2])
+            if b[0] == "int":
+                return int(x)
+            if b[0] == "np":
+                return getattr(np, b[3])(int(x)) if b[3] else int(x)
+            if b[0] == "float":
+                return float(x)
+            if b[0] == "tp":
+                tp = p.get_point(int(x)) if x >= 0 else None
+                return tp if tp is not None else S.TimePoint(int(x))
+            return S.TimePoint(int(x) if x.denominator == 1 else float(x))
+
+        kw = {}
+        if op[1] is not None:
+            kw["cls"] = cx.classes[op[1]]
+        if op[2][0] != "-":
+            kw["start"] = arg(op[2])
+        if op[3][0] != "-":
+            kw["end"] = arg(op[3])
+        if op[4] != "_":
+            kw["include_subclasses"] = op[4]
+        if op[5] != "_":
+            kw["mode"] = op[5]
+        res = list(p.iter_all(**kw))
+        return "objs:" + _ilist(cx.ids(res)), res
     if k in ("np_ss", "np_ins", "np_del"):
         import numpy as np
 
@@ -534,6 +822,42 @@ class Book:
 
     def times(self):
         return set(t for side in self.listed for _, t in side)
+
+    def resync(self, cx):
+        """take references, listings and allowed-empty points from the part as it is (after a call whose effect the
+        property does not fix); the state clauses are still checked against it"""
+        pts = list(cx.part._points)
+        for i, o in enumerate(cx.objs):
+            self.reg[i] = [None if o.start is None else o.start.t, None if o.end is None else o.end.t]
+        self.listed = [set(), set()]
+        for tp in pts:
+            for side, d in ((0, tp.starting_objects), (1, tp.ending_objects)):
+                for oset in d.values():
+                    for o in oset:
+                        if id(o) in cx.oid:
+                            self.listed[side].add((cx.oid[id(o)], tp.t))
+        ts = set(tp.t for tp in pts)
+        self.requested = set(t for t in self.requested if t in ts)
+
+    def unlist(self, side, i):
+        """Part.remove on one side: the listing the reference points to goes away (and with the last listing of a
+        time its point, requested or not)"""
+        t = self.reg[i][side]
+        self.listed[side].discard((i, t))
+        self.reg[i][side] = None
+        if t not in self.times():
+            self.requested.discard(t)
+
+    def tp_remove(self, side, t, i, keep_ref=False):
+        """TimePoint.remove_*_object of the point at t: the listing AT t goes away, the reference is cleared (the
+        code clears it whatever it was; when it pointed to ANOTHER point the property does not say whether it
+        must survive - the caller passes keep_ref after looking at the part), and the point stays even when nothing
+        is listed there any more (no clean-up: from now on it is an allowed empty point, like a requested one)"""
+        self.listed[side].discard((i, t))
+        if not keep_ref:
+            self.reg[i][side] = None
+        if t not in self.times():
+            self.requested.add(t)
 
     def strict(self):
         return all(self.listed[sd] == set((i, r[sd]) for i, r in enumerate(self.reg) if r[sd] is not None)
@@ -689,12 +1013,102 @@ def check_objs(cx, bk, what, res, side, pred, cls, incl, descending=False):
 NP_KINDS = ("np_ss", "np_ins", "np_del", "npstate")
 
 
+def evaluate_buckets(desc):
+    """one registry: after every operation the result and the non-empty buckets (by class id, each in its order)
+    are compared with the dictionary model; oracle (sets only - order is not part of the property): every bucket
+    holds exactly the registered objects of exactly that class, a read yields exactly the registered matching
+    objects once each, the clean-up count is the number of registered objects"""
+    import partitura.score as S
+
+    t, classes = _tables()
+    cx = Ctx({"q0": 1, "cls": desc["cls"]})
+    p = cx.part
+    requests = ["reset 1 %s" % W.lst(W.i, desc["cls"]), "bkreset"]
+    impl = ["ok;" + cx.dump()]
+    keep = S.TimedObject()
+    p.add(keep, None, 5)
+    tp = p.get_point(5)
+    impl.append("ok;" + cx.reg_text(tp.starting_objects))
+    oracle = []
+    registered = []
+    removed = 0
+    for opi, op in enumerate(desc["ops"]):
+        k = op[0]
+        res = None
+        try:
+            if k == "badd":
+                p.add(cx.objs[op[1]], start=5)
+                if op[1] not in registered:
+                    registered.append(op[1])
+                txt, req = "ok", "bkadd %d" % op[1]
+            elif k == "brmt":
+                p.remove(cx.objs[op[1]], "start")
+                if op[1] in registered:
+                    registered.remove(op[1])
+                    removed += 1
+                txt, req = "ok", "bkrmt %d" % op[1]
+            elif k == "brmk":
+                tp.remove_starting_object(cx.objs[op[1]])
+                if op[1] in registered:
+                    registered.remove(op[1])
+                    removed += 1
+                txt, req = "ok", "bkrmk %d" % op[1]
+            elif k == "biter":
+                res = list(tp.iter_starting(cx.cls_of(op[1]), op[2]))
+                txt, req = "objs:" + _ilist(cx.ids(res)), "bkiter %s %s" % (_o(op[1]), W.b(op[2]))
+            else:
+                res = sum(len(oo) for oo in tp.starting_objects.values())
+                txt, req = "n:%d" % res, "bktotal"
+        except Exception as e:  # noqa
+            txt = "err:" + type(e).__name__
+            req = "bktotal"
+            if len(oracle) < 12:
+                oracle.append("raises: %s: %s on valid arguments [op %d %r]" % (type(e).__name__, e, opi, op))
+        requests.append(req)
+        impl.append(txt + ";" + cx.reg_text(tp.starting_objects))
+        fails = []
+        if p.get_point(5) is not tp:
+            fails.append("empty: the time point with an ending object was removed or replaced")
+        for c, oset in tp.starting_objects.items():
+            want = set(i for i in registered if type(cx.objs[i]) is c)
+            got = cx.ids(oset)
+            if set(got) != want or len(got) != len(want):
+                fails.append("registry: bucket %s holds %r, registered objects of that class are %r" % (
+                    c.__name__, sorted(got), sorted(want)))
+        for i in registered:
+            if cx.objs[i] not in tp.starting_objects.get(type(cx.objs[i]), {}):
+                fails.append("registry: object %d is registered but not listed" % i)
+        for i, o in enumerate(cx.objs):
+            if (o.start is tp) != (i in registered) or (o.start is not None and o.start is not tp):
+                fails.append("backref: object %d has start=%s, registered=%s" % (
+                    i, None if o.start is None else o.start.t, i in registered))
+        if k == "biter":
+            want = sorted(i for i in registered if matches(cx, i, op[1], op[2]))
+            if sorted(cx.ids(res)) != want:
+                fails.append("query: iter_starting returned %r, registered matching objects are %r" % (
+                    sorted(cx.ids(res)), want))
+        if k == "btotal" and res != len(registered):
+            fails.append("registry: the clean-up count is %r, %d objects are registered" % (res, len(registered)))
+        for f in fails:
+            if len(oracle) < 12:
+                oracle.append("%s [op %d %r]" % (f, opi, op))
+    key = ("B|%r|%r" % (desc["cls"], desc["ops"])) if removed else None
+    br = {}
+    for op in desc["ops"]:
+        br[op[0]] = br.get(op[0], 0) + 1
+    return Eval(requests, impl, oracle, key, {"branches": br, "valid": True, "strict": True,
+                                              "nops": len(desc["ops"])})
+
+
 def evaluate(desc):
     warnings.filterwarnings("ignore")
+    if desc.get("kind") == "buckets":
+        return evaluate_buckets(desc)
     cx = Ctx(desc)
     bk = Book(len(cx.objs))
     S = cx.S
-    requests = ["reset %d %s" % (desc["q0"], W.lst(W.i, desc["cls"]))]
+    requests = ["reset0 %s" % W.lst(W.i, desc["cls"]) if desc["q0"] is None
+                else "reset %d %s" % (desc["q0"], W.lst(W.i, desc["cls"]))]
     impl = ["ok;" + cx.dump()]
     oracle = []
     nontrivial = 0
@@ -732,12 +1146,28 @@ def evaluate(desc):
             neg = (op[2] is not None and op[2] < 0) or (op[3] is not None and op[3] < 0)
         elif k in ("goa", "gp", "prev", "next"):
             neg = op[1] < 0
+        elif k in ("tpadd", "tprm"):
+            neg = op[2] < 0       # the harness fetches the point with part.get_point(t)
+        elif k == "addd":
+            neg = any(v not in ("_", None) and v < 0 for v in (op[2], op[3]))
         if neg:
             if not isinstance(exc, S.InvalidTimePointException):
                 fail(opi, op, "reject: negative time not rejected with InvalidTimePointException (%s)" % (
                     "no exception" if exc is None else type(exc).__name__))
             if after != before:
                 fail(opi, op, "atomic: rejected call changed the part: before %s after %s" % (before, after))
+            continue
+        if k == "rmx" and op[2] not in (None, "start", "end", "both"):
+            # a `which` string that is none of the three documented ones is NOT a valid argument: the property
+            # does not say whether the call is rejected, ignored or read leniently.  Only atomicity of a rejection
+            # is demanded; otherwise the bookkeeping follows the part (the correspondence pins what the code does)
+            if exc is not None:
+                if after != before:
+                    fail(opi, op, "atomic: rejected call changed the part: before %s after %s" % (before, after))
+            else:
+                bk.resync(cx)
+                for f in check_invariant(cx, bk):
+                    fail(opi, op, f)
             continue
         if exc is not None:
             fail(opi, op, "raises: %s: %s on valid arguments" % (type(exc).__name__, exc))
@@ -770,11 +1200,53 @@ def evaluate(desc):
             bk.requested.add(op[1])
             if raw is None or raw.t != op[1] or not any(raw is q for q in cx.part._points):
                 fail(opi, op, "query: get_or_add_point did not return the point of the timeline at t")
-        # frame conditions
-        if k in ("all", "prev", "next", "first", "last", "gp", "qds", "sweep", "qmap") + NP_KINDS:
+        elif k == "addd":
+            for side, t in ((0, op[2]), (1, op[3])):
+                if t not in ("_", None):
+                    bk.listed[side].add((op[1], t))
+                    bk.reg[op[1]][side] = t
+        elif k == "rmx":
+            # `which` as the documentation gives it: 'start', 'end', 'both' (the default); any other string is
+            # not one of the three and must leave the part alone
+            sides = {None: (0, 1), "both": (0, 1), "start": (0,), "end": (1,)}[op[2]]
+            if not any(bk.reg[op[1]][sd] is not None for sd in sides) and after != before:
+                fail(opi, op, "frame: remove(which=%r) of an object not registered on that side changed the part: "
+                              "before %s after %s" % (op[2], before, after))
+            for side in sides:
+                if bk.reg[op[1]][side] is not None:
+                    bk.unlist(side, op[1])
+                    if npts_before > 0:
+                        nontrivial += 1
+        elif k == "tpadd" and raw is not None:
+            # TimePoint.add_*_object: the object refers to this point and is listed by it; nothing is deregistered
+            bk.listed[op[1]].add((op[3], op[2]))
+            bk.reg[op[3]][op[1]] = op[2]
+        elif k == "tprm" and raw is not None:
+            cur = bk.reg[op[3]][op[1]]
+            ref = cx.objs[op[3]].start if op[1] == 0 else cx.objs[op[3]].end
+            foreign = cur is not None and cur != op[2]
+            bk.tp_remove(op[1], op[2], op[3], keep_ref=foreign and ref is not None and ref.t == cur)
+        elif k == "slurS":
+            # Slur.start_note = note: `if self.start: self.start.remove_starting_object(self)`
+            if bk.reg[op[1]][0] is not None:
+                bk.tp_remove(0, bk.reg[op[1]][0], op[1])
+        elif k == "slurE":
+            # Slur.end_note = note: leave the current end point, join the ending objects of note.end
+            if bk.reg[op[1]][1] is not None:
+                bk.tp_remove(1, bk.reg[op[1]][1], op[1])
+            if bk.reg[op[2]][1] is not None:
+                bk.listed[1].add((op[1], bk.reg[op[2]][1]))
+                bk.reg[op[1]][1] = bk.reg[op[2]][1]
+        if k in ("tpadd", "tprm") and raw is None:
+            if op[2] in bk.times() or op[2] in [tp.t for tp in cx.part._points]:
+                fail(opi, op, "query: get_point(%d) found no point although one exists" % op[2])
             if after != before:
                 fail(opi, op, "frame: read-only query changed the part: before %s after %s" % (before, after))
-        if k in ("add", "rm", "goa") and before_table is not None:
+        # frame conditions
+        if k in ("all", "allx", "prev", "next", "first", "last", "gp", "qds", "sweep", "qmap") + NP_KINDS:
+            if after != before:
+                fail(opi, op, "frame: read-only query changed the part: before %s after %s" % (before, after))
+        if k in ("add", "rm", "goa", "addd", "rmx", "tpadd", "tprm", "slurS", "slurE") and before_table is not None:
             try:
                 tab = [(int(r[0]), int(r[1])) for r in cx.part.quarter_durations().tolist()]
             except Exception:
@@ -811,6 +1283,17 @@ def evaluate(desc):
             a, b = op[2], op[3]
             incl = True if op[1] is None else op[4]
             for f in check_objs(cx, bk, "iter_all", raw, side,
+                                lambda x: (a is None or a <= x) and (b is None or x < b), op[1], incl):
+                fail(opi, op, f)
+        elif k == "allx":
+            # omitted arguments: the documented defaults (cls=None, start=None, end=None, include_subclasses=False,
+            # mode="starting"); bounds in any numeric form or as TimePoint mean their time; an unknown mode
+            # string means "starting" (documented: a warning, then "starting")
+            side = 1 if op[5] == "ending" else 0
+            a = None if op[2][0] == "-" else Fraction(op[2][1], op[2][2])
+            b = None if op[3][0] == "-" else Fraction(op[3][1], op[3][2])
+            incl = True if op[1] is None else (False if op[4] == "_" else op[4])
+            for f in check_objs(cx, bk, "iter_all(%s..%s)" % (op[2][0], op[3][0]), raw, side,
                                 lambda x: (a is None or a <= x) and (b is None or x < b), op[1], incl):
                 fail(opi, op, f)
         elif k in ("prev", "next") and raw is not None:
@@ -880,8 +1363,11 @@ def evaluate(desc):
                         1 if mode == "ending" else 0,
                         lambda x: (a is None or a <= x) and (b is None or x < b), c, True if c is None else incl):
                     fail(opi, op, f)
-    # the (decidable) weak invariant must hold of the model state at the end of EVERY history
+    # the (decidable) weak invariant must hold of the model state at the end of EVERY history,
+    # and the model's memo must be the map of its table
     requests.append("winv")
+    impl.append("1")
+    requests.append("cache")
     impl.append("1")
     if bk.valid:
         # the full invariant holds exactly when no stale listing is left (Inv <-> WInv and Strict)
@@ -910,8 +1396,12 @@ def shrink(desc):
         if size == 1:
             break
         size //= 2
+    if desc.get("kind") == "buckets":
+        return
     # drop the trailing objects no operation mentions
-    used = [op[1] for op in ops if op[0] in ("add", "rm")]
+    used = [op[1] for op in ops if op[0] in ("add", "rm", "rmx", "addd")]
+    used += [op[3] for op in ops if op[0] in ("tpadd", "tprm")]
+    used += [v for op in ops if op[0] in ("slurS", "slurE") for v in op[1:3]]
     top = max(used) + 1 if used else 1
     if top < len(desc["cls"]):
         yield dict(desc, cls=desc["cls"][:top])
@@ -931,7 +1421,40 @@ def distribution(descs, results):
         nops[min(60, (info.get("nops") or 0)) // 10 * 10] += 1
         valid += 1 if info.get("valid") else 0
         strict += 1 if info.get("strict") else 0
+    mag = Counter()
+    npk = Counter()
+    forms = Counter()
+    strs = Counter()
+    mag["registry (bucket) cases"] = sum(1 for d in descs if d.get("kind") == "buckets")
+    for d in descs:
+        if d.get("kind") == "buckets":
+            continue
+        qs = [op[2] for op in d["ops"] if op[0] == "qd"] + ([d["q0"]] if d["q0"] is not None else [])
+        ts = [v for op in d["ops"] if op[0] in ("add", "qd", "goa", "gp") for v in op[1:4]
+              if isinstance(v, int) and not isinstance(v, bool)]
+        mag["quarter durations >= 1e5" if any(q >= 10 ** 5 for q in qs) else "quarter durations small"] += 1
+        mag["times >= 1e5" if any(t >= 10 ** 5 for t in ts) else "times small"] += 1
+        if any(q >= 10 ** 5 and (q + 1 in qs or q - 1 in qs) for q in qs):
+            mag["two quarter durations >= 1e5 differing by 1"] += 1
+        if d["q0"] is None:
+            mag["Part(id) default quarter"] += 1
+        for op in d["ops"]:
+            if op[0] in ("add", "qd", "goa", "gp"):
+                for v in op[3:]:
+                    if isinstance(v, str) and v != "_":
+                        npk[v] += 1
+            if op[0] == "allx":
+                forms[op[2][0]] += 1
+                forms[op[3][0]] += 1
+                strs["mode=" + repr(op[5])] += 1
+                strs["incl=" + repr(op[4])] += 1
+            if op[0] == "rmx":
+                strs["which=" + repr(op[2])] += 1
+            if op[0] == "addd":
+                strs["add(%s,%s)" % ("omitted" if op[2] == "_" else "given", "omitted" if op[3] == "_" else "given")] += 1
     return {"operations (! = raised)": dict(br), "history length (decade)": dict(nops),
+            "magnitudes (histories)": dict(mag), "numpy scalar arguments": dict(npk),
+            "iter_all bound forms": dict(forms), "string / omitted arguments": dict(strs),
             "histories without an unexpected exception": valid, "histories": len(descs),
             "histories ending without a stale listing (inside Valid, or double registration undone)": strict,
             "objects": dict(Counter(len(d["cls"]) for d in descs)),
